@@ -3,7 +3,7 @@
 // A case is one *scenario* run on the real scheduler (built with -tags verif) plus the trace it produced:
 //
 //	scn {json}                 the scenario (limit, tasks, submitters, schedule forcing) — for the record / replay
-//	lim N, new tid cls var nil the configured limit and the tasks
+//	lim N F, new tid cls var nil zd  the configured limit (token left?) and the tasks
 //	t … / s … / shutdown       hook events, canonicalised (see lean/PB/Drv/C15.lean); the Lean model is the acceptor
 //	h …                        what the harness itself observed (calls, returns, function begin/end, final counters)
 //	end cnt mods               the counters after everything finished
@@ -634,7 +634,11 @@ func canon(sc *scenario, res *runResult) []string {
 		if t.Mod < 0 {
 			nilm = 1
 		}
-		lines = append(lines, fmt.Sprintf("new %d %d %d %d", i, t.Prio, t.Var, nilm))
+		zd := 0
+		if t.Var == 2 && t.Prio != 2 && t.DelayMs == 0 {
+			zd = 1 // Signal*MicroTask(0): documented "use the default", see the recorded finding
+		}
+		lines = append(lines, fmt.Sprintf("new %d %d %d %d %d", i, t.Prio, t.Var, nilm, zd))
 	}
 	// the scheduler of the previous case is still parked in its select after a "space" decision taken at
 	// count 0; with count 0 that decision is the same under the new limit
@@ -865,7 +869,7 @@ func (execT) Do(line string) string {
 
 const (
 	sigLimit    = "C15:limit-exceeded-before-any-expiry"
-	sigLimitSig = "C15:signal-variant-maxdelay-0-does-not-wait-for-clearance"
+	sigLimitSig = "C15:limit-exceeded:signal-variants-with-maxdelay-0" // recorded finding (props/C15.findings.json)
 	sigOnce     = "C15:function-not-executed-exactly-once"
 	sigErr      = "C15:blocking-variant-returned-wrong-error"
 	sigCount    = "C15:global-count-not-zero-after-quiescence"
@@ -916,7 +920,8 @@ func monitor(c hxlib.Case, outs []string) []hxlib.Violation {
 	callAt := make([]int64, n)
 	shutdownBegun := false
 	maxML := 0
-	sigOnly := false // is the excess explained by Signal* tasks called with maxDelay 0 alone?
+	zeroSignalCalled := false // has a medium/low Signal*MicroTask(0) call been made so far?
+	sigOnly := false          // … before the instant at which the limit was exceeded (the finding's input class)
 	limitBroken := false
 	var limitWhat string
 	expired := sc.Class == "expiry" || sc.Class == "flood"
@@ -982,6 +987,9 @@ func monitor(c hxlib.Case, outs []string) []hxlib.Violation {
 		switch f[1] {
 		case "call":
 			callAt[tid] = a
+			if t.Var == 2 && t.Prio != 2 && t.DelayMs == 0 {
+				zeroSignalCalled = true
+			}
 			if t.Prio == 2 {
 				highActive[tid] = true
 			}
@@ -999,13 +1007,7 @@ func monitor(c hxlib.Case, outs []string) []hxlib.Violation {
 				}
 				if !shutdownBegun && !expired && len(highActive) == 0 && len(running) > lim && !limitBroken {
 					limitBroken = true
-					others := 0
-					for k := range running {
-						if tk := sc.Tasks[k]; !(tk.Var == 2 && tk.DelayMs == 0) {
-							others++
-						}
-					}
-					sigOnly = others <= lim
+					sigOnly = zeroSignalCalled
 					ids := make([]int, 0, len(running))
 					for k := range running {
 						ids = append(ids, k)
